@@ -20,7 +20,7 @@ HOOK_DEFINE = "H3_VERIF_SIM"   # MANIFEST.hooks.guard; no source file uses it
 
 SHIPPED = ["-DBUILDING_H3=1", "-DH3_PREFIX=", "-O2", "-g", "-DNDEBUG", "-D" + HOOK_DEFINE + "=1"]
 
-SIM_SOURCES = ["heap.cc", "contain.cc", "op.cc", "gen.cc", "single.cc",
+SIM_SOURCES = ["heap.cc", "statics.cc", "contain.cc", "op.cc", "gen.cc", "single.cc",
                "c17.cc", "c16.cc", "minimize.cc", "main.cc"]
 COV_SOURCES = ["sched.cc", "trap.cc", "c18.cc"]
 
@@ -129,14 +129,15 @@ def build(variant, outdir):
     if cov:
         simflags += ["-fsanitize-coverage=trace-pc-guard,pc-table", "-fno-pic"]
         refflags += ["-fno-pic"]
-    lib_sim = build_lib(outdir, "libsim", cc, simflags, incdir, rename_sections=cov)
+    fence = not asan   # ASan registers globals by section; leave its layout alone
+    lib_sim = build_lib(outdir, "libsim", cc, simflags, incdir, rename_sections=fence)
     lib_ref = build_lib(outdir, "libref", cc, refflags, incdir, prefix="ref_")
     # simulator objects (never instrumented with coverage guards)
     cxx = ["g++", "-std=c++17", "-O1", "-g", "-Wall", "-Wno-unused-function", "-I" + SIMDIR, "-I" + incdir]
     if cov:
         cxx += ["-DSIM_COV=1", "-fno-pic"]
     if asan:
-        cxx += ["-DSIM_DELEGATE_MALLOC=1", "-fsanitize=address,undefined", "-fno-omit-frame-pointer"]
+        cxx += ["-DSIM_NO_STATIC_FENCE=1", "-DSIM_DELEGATE_MALLOC=1", "-fsanitize=address,undefined", "-fno-omit-frame-pointer"]
     od = os.path.join(outdir, "simobjs")
     shutil.rmtree(od, ignore_errors=True)
     os.makedirs(od)
@@ -151,7 +152,7 @@ def build(variant, outdir):
         jobs.append(cxx + ["-DAPI_VAR=" + var, "-DAPI_PFX=" + pfx] + extra +
                     ["-c", os.path.join(SIMDIR, "api_table.cc"), "-o", o])
     pads = []
-    if cov:
+    if fence:
         for nm in ("pad_before", "pad_after"):
             src = os.path.join(od, nm + ".c")
             with open(src, "w") as f:
@@ -161,11 +162,11 @@ def build(variant, outdir):
                 f.write('__attribute__((section("h3wbss,\\"aw\\",@nobits#"), aligned(4096))) char h3w_%s_bss[4096];\n' % nm)
             o = os.path.join(od, nm + ".o")
             pads.append(o)
-            jobs.append(["gcc", "-c", "-fno-pic", src, "-o", o])
+            jobs.append(["gcc", "-c"] + (["-fno-pic"] if cov else []) + [src, "-o", o])
     compile_many(jobs)
     exe = os.path.join(outdir, "simh3")
     link = ["g++", "-no-pie", "-o", exe] + objs
-    if cov:
+    if fence:
         link += [pads[0], lib_sim, pads[1]]
     else:
         link += [lib_sim]
@@ -173,7 +174,7 @@ def build(variant, outdir):
     if asan:
         link += ["-fsanitize=address,undefined"]
     run(link)
-    if cov:
+    if fence:
         secs = run(["readelf", "-S", "-W", exe])
         for name in ("h3wdata", "h3wbss"):
             if len(re.findall(r"\]\s+%s\s" % name, secs)) != 1:
